@@ -91,7 +91,6 @@ func classify(it *item, q qnode, par any, l, r res, lc, rc []string) (sig, why s
 	return fmt.Sprintf("diff:%s:%s:%s:%s%s", kind, where, vt, q.text, p), "results differ"
 }
 
-
 // elementIndex: what index(x) gives when an array argument is looked for as one ELEMENT
 // (the behaviour of the recorded finding): the first i with hay[i] == x, else null.
 func elementIndex(hay []any, x any) string {
